@@ -99,6 +99,7 @@ type Machine struct {
 	horizon     int64
 	tearing     bool
 	timerSeq    int
+	ss          *schedState
 
 	funcsSeen map[*ssa.Function]bool
 	harnessPkg *ssa.Package
@@ -142,6 +143,7 @@ func (m *Machine) resetPath(prefix []int) {
 	m.horizon = 1 << 62
 	m.tearing = false
 	m.timerSeq = 0
+	m.ss = &schedState{endCh: make(chan pathEnd, 64)}
 	m.initDone = map[*ssa.Package]bool{}
 	// keep the term table bounded
 	if m.tt.next > 2_000_000 {
